@@ -155,6 +155,15 @@ class IndexDomain(ArrNormDomain):
             hi = args[1] if len(args) > 1 else args[0]
             n = self.interp.binop(ast.Sub(), hi, lo, node)
             return Ranged(lo, n)
+        if dotted == 'numpy.linspace' and len(args) >= 2 and set(kwargs) <= {'num', 'endpoint', 'dtype'}:
+            # first element, number of samples and step: stop - start over num - 1 intervals (num when the end point is left out)
+            num = kwargs.get('num', args[2] if len(args) > 2 else Const(50))
+            ep = kwargs.get('endpoint', args[3] if len(args) > 3 else Const(True))
+            if isinstance(ep, Const) and isinstance(ep.v, bool) and self.rat(num) is not None and self.rat(args[0]) is not None and self.rat(args[1]) is not None:
+                it = self.interp
+                span = it.binop(ast.Sub(), args[1], args[0], node)
+                den = num if not ep.v else it.binop(ast.Sub(), num, Const(1), node)
+                return Ranged(args[0], num, it.binop(ast.Div(), span, den, node))
         if dotted.rsplit('.', 1)[-1] in ('fftshift', 'ifftshift', 'fft2', 'ifft2', 'fft', 'ifft', 'abs', 'absolute', 'real', 'angle', 'copy') \
                 and args and isinstance(args[0], Shaped) and 's' not in kwargs and len(args) == 1:
             return Shaped(args[0].shape, args[0].label)
